@@ -1,5 +1,6 @@
 """C13 - variant and operand selection follows the documented priority only."""
 from __future__ import annotations
+import copy
 
 from hypothesis import strategies as st
 
@@ -41,6 +42,20 @@ def _cases(draw, tier):
     cfg = draw(isagen.full_isa(max_mnemonics=2, max_variants=4, address_sizes=(12, 16, 24), with_zones=False,
                                spec_bias=True))
     forced = None
+    if draw(st.booleans()):
+        # numeric alternatives that must also be a valid address (another branch of the operand reader), in the sets
+        # and in the listed combinations
+        def flip(a):
+            if a['type'] in ('numeric', 'indirect_numeric', 'deferred_numeric') and draw(st.integers(0, 3)) != 0:
+                a['argument']['valid_address'] = True
+        for s_ in cfg['operand_sets'].values():
+            for a in s_['operand_values'].values():
+                flip(a)
+        for ic in cfg['instructions'].values():
+            for v_ in ([ic] if 'bytecode' in ic else []) + list(ic.get('variants') or []):
+                for sp_ in ((v_.get('operands') or {}).get('specific_operands') or {}).values():
+                    for a in sp_['list'].values():
+                        flip(a)
     if draw(st.integers(0, 7)) == 0:
         # a mnemonic whose first variant reads enumeration keys only and whose second reads any expression
         keys = draw(st.lists(st.sampled_from([k for k in isagen.ENUM_KEYS if k.isidentifier()]), min_size=1, max_size=3, unique=True))
@@ -53,6 +68,24 @@ def _cases(draw, tier):
             {'bytecode': {'value': 1, 'size': 4}, 'operands': {'count': 1, 'operand_sets': {'list': ['kset']}}},
             {'bytecode': {'value': 2, 'size': 4}, 'operands': {'count': 1, 'operand_sets': {'list': ['nset']}}}]}
         forced = 'tsk'
+    elif draw(st.integers(0, 7)) == 0 and cfg['general'].get('registers'):
+        # a mnemonic whose first variant reads a number (plain, in brackets, or one that must be a valid address) and
+        # whose second reads a register, plain or in brackets: a register name is never taken for a number
+        r = draw(st.sampled_from(sorted(cfg['general']['registers'])))
+        nk = draw(st.sampled_from(['numeric', 'indirect_numeric']))
+        num = {'type': nk, 'argument': {'size': 16, 'byte_align': True}}
+        if draw(st.booleans()):
+            num['argument']['valid_address'] = True
+        reg = {'type': 'register' if nk == 'numeric' else 'indirect_register', 'register': r, 'bytecode': {'value': 1, 'size': 4}}
+        cfg['operand_sets']['tj_num'] = {'operand_values': {'num': num}}
+        cfg['operand_sets']['tj_reg'] = {'operand_values': {'reg': reg}}
+        first = {'count': 1, 'operand_sets': {'list': ['tj_num']}}
+        if draw(st.booleans()):
+            first = {'count': 1, 'specific_operands': {'only': {'list': {'num': copy.deepcopy(num)}}}}
+        cfg['instructions']['tjr'] = {'variants': [
+            {'bytecode': {'value': 0xC, 'size': 4}, 'operands': first},
+            {'bytecode': {'value': 0xE, 'size': 4}, 'operands': {'count': 1, 'operand_sets': {'list': ['tj_reg']}}}]}
+        forced = 'tjr'
     isa = R.Isa(cfg)
     keys_in_use = set()
     for s in cfg['operand_sets'].values():
@@ -70,6 +103,8 @@ def _cases(draw, tier):
     mn = forced or draw(st.sampled_from(sorted(isa.instructions)))
     variants = isa.variants(mn)
     vi = 0 if forced else draw(st.integers(0, len(variants) - 1))
+    if forced == 'tjr' and draw(st.integers(0, 3)) != 0:
+        vi = 1
     v = variants[vi]
     oc = v.get('operands')
     alts = []
@@ -111,11 +146,16 @@ def _cases(draw, tier):
             return {'skip': 'no operand value satisfies the constraints', 'isa': cfg}
         ops.append(o)
     regname_const = None
-    perturb = draw(st.sampled_from(['none', 'none', 'none', 'reg', 'drop', 'add', 'keylabel', 'keylabel', 'keyplus', 'keyplus',
+    perturb = draw(st.sampled_from(['none', 'none', 'none', 'reg', 'reg', 'reg', 'drop', 'add', 'keylabel', 'keylabel', 'keyplus', 'keyplus',
                                     'garbage', 'garbage', 'regnear', 'regnear', 'regoffset', 'regoffset', 'regspell', 'regspell']))
     regs = isa.registers
     if perturb == 'reg' and ops and regs:
         i = draw(st.integers(0, len(ops) - 1))
+        # (rather in a position whose numeric alternative must also be a valid address, when there is one)
+        va = [j for j, (aid, alt) in enumerate([a for a in alts if a[1]['type'] != 'empty'])
+              if (alt.get('argument') or {}).get('valid_address') and j < len(ops)]
+        if va and draw(st.booleans()):
+            i = draw(st.sampled_from(va))
         ops[i] = {'k': 'reg', 'r': draw(st.sampled_from(regs)), 'deco': None}
     elif perturb == 'drop' and ops:
         ops.pop(draw(st.integers(0, len(ops) - 1)))
